@@ -103,6 +103,8 @@ def check(ctx):
                           "every parameter forwarded under its own name; **kwargs forwarded")
     ctx.rule("FWD-live", "restriction and typing parameters of each reader are read on some path")
     ctx.rule("CAST-conv", "dtype maps are applied to parsed Python lists through the converting constructor, never .fast()")
+    ctx.rule("RESTR-pol", "membership tests on the restriction parameter keep the elements IN it")
+    ctx.rule("TYPE-flow", "each (name, type) pair of a type map reaches a conversion")
     ctx.rule("TNT-order", "zip(names, values) labelling sites in readers: same order provenance on both sides")
     ctx.trust("CPython ast; pyarrow readers label their own columns")
     aliases = declared_aliases(repo)
@@ -275,5 +277,73 @@ def check(ctx):
                    f"absent value stays the object None, so a str cast stores the text 'None' and an int cast raises -- reading "
                    f"everything and then casting gives a missing value instead", clause="reading with a dtype mapping equals reading everything and casting")
     ctx.count("dtype-cast sites over parsed Python lists", n_cast, 1)
+    # ------------------------------------------------------------ RESTR-pol
+    # Where a reader tests membership in its restriction parameter, elements IN it are the ones kept:
+    # a filter that builds what is kept uses `in`, a list of things to delete uses `not in`.
+    n_pol = 0
+    for q in READERS:
+        fn = repo.functions.get(q)
+        if fn is None:
+            continue
+        rparams = [p_ for p_ in RESTRICT if p_ in fn.kwonly + fn.params]
+        for P in rparams:
+            for comp in [n for n in body_nodes(fn.node) if isinstance(n, (ast.ListComp, ast.SetComp, ast.DictComp, ast.GeneratorExp))]:
+                for cond in [c for g in comp.generators for c in g.ifs]:
+                    if not (isinstance(cond, ast.Compare) and len(cond.ops) == 1 and isinstance(cond.ops[0], (ast.In, ast.NotIn))
+                            and isinstance(cond.comparators[0], ast.Name) and cond.comparators[0].id == P):
+                        if any(isinstance(n, ast.Name) and n.id == P for n in ast.walk(cond)):
+                            n_pol += 1
+                            ctx.ob("RESTR-pol", fn, norm(cond), cond, False,
+                                   f"the filter on {P} is not a plain membership test: cannot tell which elements are kept", clause="selecting those columns")
+                        continue
+                    n_pol += 1
+                    par = fn.module.parent.get(comp)
+                    tgt = par.targets[0].id if isinstance(par, ast.Assign) and isinstance(par.targets[0], ast.Name) else None
+                    # role: is the comprehension's result a list of things to delete?
+                    drop_role = False
+                    if tgt:
+                        for loop in [n for n in body_nodes(fn.node) if isinstance(n, ast.For)]:
+                            if any(isinstance(m, ast.Name) and m.id == tgt for m in ast.walk(loop.iter)):
+                                if any(isinstance(m, ast.Delete) or (isinstance(m, ast.Call) and isinstance(m.func, ast.Attribute) and m.func.attr == "pop")
+                                       for b in loop.body for m in ast.walk(b)):
+                                    drop_role = True
+                    positive = isinstance(cond.ops[0], ast.In)
+                    ok = positive != drop_role
+                    ctx.ob("RESTR-pol", fn, f"{norm(comp)[:90]} ({'things to delete' if drop_role else 'things kept'})", cond, ok,
+                           f"elements in {P} are kept" if ok else
+                           f"the membership test on {P} has the wrong polarity: the {'deleted' if drop_role else 'kept'} elements are those "
+                           f"{'in' if drop_role else 'not in'} {P}, so the restriction returns the complement of what was requested",
+                           clause="reading with a column/key restriction equals reading everything and then selecting those")
+    ctx.count("membership filters on restriction parameters", n_pol, 3)
+    # ------------------------------------------------------------- TYPE-flow
+    # `for name, dtype in dtypes.items():` -- both loop variables must reach a conversion in the loop body
+    n_tf = 0
+    for q in READERS:
+        fn = repo.functions.get(q)
+        if fn is None:
+            continue
+        for P in [p_ for p_ in TYPING if p_ in fn.kwonly + fn.params]:
+            for loop in [n for n in body_nodes(fn.node) if isinstance(n, ast.For) and pmatch_items(loop_iter=n.iter, P=P)]:
+                names = [e.id for e in (loop.target.elts if isinstance(loop.target, ast.Tuple) else [loop.target]) if isinstance(e, ast.Name)]
+                n_tf += 1
+                used = {}
+                for nm in names:
+                    used[nm] = any(isinstance(m, ast.Call) and any(isinstance(x, ast.Name) and x.id == nm for a in list(m.args) + [k.value for k in m.keywords] + [m.func] for x in ast.walk(a))
+                                   for b in loop.body for m in ast.walk(b)) or \
+                        any(isinstance(m, ast.Subscript) and any(isinstance(x, ast.Name) and x.id == nm for x in ast.walk(m.slice))
+                            for b in loop.body for m in ast.walk(b))
+                stores = any(isinstance(m, (ast.Assign, ast.AugAssign)) or (isinstance(m, ast.Expr) and isinstance(m.value, (ast.Yield, ast.Call)))
+                             for b in loop.body for m in ast.walk(b))
+                ok = len(names) == 2 and all(used.values()) and stores
+                ctx.ob("TYPE-flow", fn, f"for {norm(loop.target)} in {norm(loop.iter)}: both reach a conversion", loop, ok,
+                       "every (name, type) pair of the map is applied" if ok else
+                       f"the loop over {P} does not apply its pairs ({ {k: v for k, v in used.items()} }, stores={stores}): the type map is "
+                       f"accepted and silently ignored", clause="casting them")
+    ctx.count("loops over a type map", n_tf, 2)
     ctx.count("restriction/typing parameters of readers", n_live, 14)
     ctx.count("positional labelling sites", n_sites, 2)
+
+
+def pmatch_items(loop_iter, P):
+    return isinstance(loop_iter, ast.Call) and isinstance(loop_iter.func, ast.Attribute) and loop_iter.func.attr == "items" \
+        and isinstance(loop_iter.func.value, ast.Name) and loop_iter.func.value.id == P
